@@ -46,7 +46,7 @@ CHECKS = {
    "DESIGN.md §6 C05"),
  "C12": ("exploration", "ENUM+SCHED",
    "bounded-exhaustive enumeration of server reply sequences for batches (all permutations/subsets/duplications/foreign ids) through both clients against a positional reference; SCHED over delivery orders of concurrent batches",
-   "For n = 1..3 (thorough 4) every reply sequence of length 0..n+1 over {ok/err answer for entry j, foreign id, non-numeric id} x id kind is delivered to the async client (CLI-MEM, real background tasks) and to the HTTP client (scripted tower layer, real HttpClient); result length, positional correctness of every entry, success/failure counts and into_ok() are judged; plus all delivery orders of 2 batches + calls in flight with reversed reply arrays.",
+   "For n = 1..3 (thorough 4) every reply sequence of length 0..n+1 over {ok/err answer for entry j, foreign id, non-numeric id} x id kind is delivered to the async client (CLI-MEM, real background tasks) and to the HTTP client (scripted tower layer, real HttpClient); result length, positional correctness of every entry, success/failure counts and into_ok() are judged; plus a typed leg (results requested as String; every sequence over ok / err / number-valued success / foreign id that contains a number-valued success: the call fails or reports that entry as an error, never a shorter or shifted list); plus all delivery orders of 2 batches + calls in flight with reversed reply arrays.",
    "A fresh client per case (batch ids start at 0, 1 or 9, so that string ids cross \"9\"/\"10\"); n <= 4 (thorough 5); replies longer than n+1 items not covered.",
    "DESIGN.md §6 C12"),
  "C03": ("model_checking", "SCHED",
@@ -86,12 +86,12 @@ CHECKS = {
    "DESIGN.md §6 C19"),
  "C13": ("model_checking", "HIST",
    "explicit-state BFS over operation histories of the real RpcModule, canonical state keys, BTreeMap reference model compared on every transition",
-   "Every transition re-executes history++[op] on a fresh real RpcModule (plus kept clones) and compares Ok/Err of the op, method_names() and the dispatch of calls to every name with a map reference; states are deduplicated by name->(kind, handler identity up to renaming); BFS to depth 8 (thorough 12) over a 49-op menu (sync/async/blocking/subscription/raw subscription/alias/merge/remove/clone/continue-from-clone over names a,b,c).",
+   "Every transition re-executes history++[op] on a fresh real RpcModule (plus kept clones) and compares Ok/Err of the op, method_names() and the dispatch of calls to every name with a map reference; states are deduplicated by name->(kind, handler identity up to renaming); BFS to depth 8 (thorough 12) over a 54-op menu (sync/async/blocking/subscription/raw subscription/alias/merge/merge of a module sharing its table with a live clone/remove/clone/continue-from-clone over names a,b,c).",
    "Handler identity is observed through returned tags; unsubscribe handlers are identified by kind only; names beyond {a,b,c} and merges beyond the 8 prepared modules are not covered.",
    "DESIGN.md §6 C13"),
  "C14": ("exploration", "ENUM",
    "bounded-exhaustive enumeration of (allow-list, Host header, header multiplicity, request-target) against an independent authority matcher",
-   "All 1- and 2-entry allow-lists (both orders; thorough also every 3-entry combination) over 14 patterns x 3.5k Host header strings (scheme x host x userinfo x port forms + control/non-ASCII) x multiplicity {0,1,2} x 4 request-target forms through the real HostFilterLayer over a counting probe service; soundness (admitted => some entry matches) on every case, completeness for single-entry lists and plain authorities. An SRV-TCP leg installs the layer as HTTP middleware of Server::start and sends single-entry lists x scheme-less Host values x request-target forms as raw HTTP/1.1, the same judgement applied to (status, handler ran).",
+   "The empty allow-list and all 1- and 2-entry allow-lists (both orders; thorough also every 3-entry combination) over 14 patterns x 3.5k Host header strings (scheme x host x userinfo x port forms + control/non-ASCII) x multiplicity {0,1,2} x 4 request-target forms through the real HostFilterLayer over a counting probe service; soundness (admitted => some entry matches) on every case, completeness for single-entry lists and plain authorities. An SRV-TCP leg installs the layer as HTTP middleware of Server::start and sends the empty and the single-entry lists x scheme-less Host values x request-target forms as raw HTTP/1.1, the same judgement applied to (status, handler ran).",
    "The reference reads the request-target authority both with and without its scheme (statement is silent); completeness is only demanded where the statement gives it.",
    "DESIGN.md §6 C14"),
  "C15": ("exploration", "ENUM",
